@@ -5,7 +5,7 @@ CONSTANTS
   MTypes <- MTypesQ
   AllM <- AllMQ
   MaxRanges = 1
-  MaxCands = 2
+  MaxCands = 1
   SubBeforeExact = TRUE
   Positive = TRUE
 INVARIANT SpecificityOrder
